@@ -492,6 +492,12 @@ async fn run_hybrid_in<const S: usize>(cfg: &HybridCfg, rows: &[Row]) -> RunResu
     wc.seed = cfg.world_seed;
     wc.stream_interceptor = icpt.dynamic();
     wc.timeout = None;
+    // with compact gates a world serves one protocol, rooted at its step
+    #[cfg(compact_gate)]
+    {
+        use ipa_step::StepNarrow;
+        wc.initial_gate = Some(crate::protocol::Gate::default().narrow(&crate::protocol::step::ProtocolStep::Hybrid));
+    }
     let t0 = Instant::now();
     let world = TestWorld::<WithShards<S>>::with_shards(&wc);
     let shares = share_rows(rows, cfg.share_seed);
